@@ -153,7 +153,7 @@ func checkC12(c *Ctx) {
 				continue
 			}
 			n++
-			okStart := strings.HasPrefix(start, "KeyInt64(global:nodeKeyPrefixFormat,") && strings.Contains(start, "param:fromVersion")
+			okStart := strings.HasPrefix(start, "KeyInt64(global:nodeKeyPrefixFormat,") && strings.Contains(start, "arg0")
 			okEnd := strings.HasPrefix(end, "KeyInt64(global:nodeKeyPrefixFormat,(getLatestVersion(") && strings.HasSuffix(end, "#1+1))")
 			c.decide("FLOW-rollback-range", "DeleteVersionsFrom range start", l.ipos(in), okStart, "starts at the node keys of fromVersion (or just above the legacy boundary): "+start, "range delete starts at `"+start+"`")
 			c.decide("FLOW-rollback-range", "DeleteVersionsFrom range end", l.ipos(in), okEnd, "ends at latest+1 (exclusive): "+end, "range delete ends at `"+end+"`, not at latest+1")
